@@ -3,6 +3,7 @@ package ptracer
 import (
 	"context"
 	"syscall"
+	"unsafe"
 
 	"golang.org/x/sys/unix"
 
@@ -274,6 +275,23 @@ func (k *kptrace) getRegs(pid int, regs *syscall.PtraceRegs) error {
 	return nil
 }
 
+// ptraceReq: the raw ptrace(2) wrapper of the package (the register-set helpers above it are
+// the real code): PTRACE_GETREGSET fills the register block the iovec points to.
+func (k *kptrace) ptraceReq(request int, pid int, addr uintptr, data uintptr) error {
+	switch request {
+	case syscall.PTRACE_GETREGSET:
+		iov := (*unix.Iovec)(sym.PtrOf(data))
+		regs := (*syscall.PtraceRegs)(unsafe.Pointer(iov.Base))
+		return k.getRegs(pid, regs)
+	case syscall.PTRACE_SETREGSET:
+		iov := (*unix.Iovec)(sym.PtrOf(data))
+		regs := (*syscall.PtraceRegs)(unsafe.Pointer(iov.Base))
+		return k.setRegsReq(pid, regs)
+	}
+	sym.Assert(false, "model: unexpected raw ptrace request")
+	return syscall.EIO
+}
+
 func (k *kptrace) setRegsReq(pid int, regs *syscall.PtraceRegs) error {
 	p := k.proc(pid)
 	if p == nil || !p.alive || p.dying || !p.stopped || k.vanished(p) {
@@ -335,7 +353,7 @@ func traceHarnessS(budget int, nprocs int, esrch bool, script []scriptEv) {
 	sym.Intercept("golang.org/x/sys/unix.PtraceSetOptions", k.setOptions)
 	sym.Intercept("golang.org/x/sys/unix.PtraceCont", k.cont)
 	sym.Intercept("golang.org/x/sys/unix.Kill", k.kill)
-	sym.Intercept("github.com/criyle/go-sandbox/ptracer.ptraceGetRegSet", k.getRegs)
+	sym.Intercept("github.com/criyle/go-sandbox/ptracer.ptrace", k.ptraceReq)
 	sym.Intercept("syscall.PtraceSetRegs", k.setRegsReq)
 	// record the verdict on the stopped process when the handler is consulted
 	hook := &hookHandler{inner: h, k: k}
@@ -437,7 +455,7 @@ func VerifC11_PtraceCancel() {
 	sym.Intercept("golang.org/x/sys/unix.PtraceSetOptions", k.setOptions)
 	sym.Intercept("golang.org/x/sys/unix.PtraceCont", k.cont)
 	sym.Intercept("golang.org/x/sys/unix.Kill", k.kill)
-	sym.Intercept("github.com/criyle/go-sandbox/ptracer.ptraceGetRegSet", k.getRegs)
+	sym.Intercept("github.com/criyle/go-sandbox/ptracer.ptrace", k.ptraceReq)
 	sym.Intercept("syscall.PtraceSetRegs", k.setRegsReq)
 	t := &Tracer{Handler: &hookHandler{inner: h, k: k}, Limit: runner.Limit{TimeLimit: 1 << 62, MemoryLimit: 1 << 62}}
 	ctx, cancel := kern.WithCancel(kern.Background())
